@@ -78,6 +78,9 @@ def cases(rng, tier):
         n = len(a)
         for k in (2, -2, 3, -1):
             out.append({"a": a, "dtype": "int64", "derived": {"t": "slice", "s": [None, None, k]}})
+        if len(out) % 7 == 0:
+            # a step far beyond the length, up to the largest a slice can carry: one cell, in canonical form
+            out.append({"a": a, "dtype": "int64", "derived": {"t": "slice", "s": [None, None, rng.choice([2 ** 31, -(2 ** 31) - 1, 2 ** 63 - 1, -(2 ** 63 - 1), 2 ** 62 + 1])]}})
         out.append({"a": a, "dtype": "int64", "derived": {"t": "binop", "b": [rng.randrange(3) for _ in a], "f": rng.choice(["add", "maximum", "multiply", "equal"])}})
         out.append({"a": a, "dtype": "int64", "derived": {"t": "concat", "b": [a[-1]] + [rng.randrange(3) for _ in range(rng.randint(0, 3))], "extra": rng.choice([0, 0, 1, 2, 3])}})
         # float operands with the SAME run boundaries whose sum is NaN in some runs (inf + -inf) and a number in others
